@@ -74,6 +74,11 @@ def gen_cases(tier, seed):
             for mode in ('sync', 'async'):
                 stop.append({'kind': 'stop', 'name': name, 'tree': tree, 'workload': 'worker-dies', 'cycles': 2, 'pending': 0, 'pad': 100, 'mode': mode,
                              'die_leaf': len(SH.leaves(tree)) - 1 if mode == 'sync' else 0, 'seed': rng.randrange(1 << 30)})
+        if name in ('Tb', 'P3b', 'seqTTT'):
+            # a batching worker dies while its input buffer is full (many requests waiting behind a slow batch)
+            bl = [i for i, lf in enumerate(SH.leaves(tree)) if lf[3]][0]
+            stop.append({'kind': 'stop', 'name': name, 'tree': tree, 'workload': 'worker-dies', 'cycles': 2, 'pending': 0, 'pad': 100, 'mode': 'sync',
+                         'die_leaf': bl, 'batched_crowd': 60, 'seed': rng.randrange(1 << 30)})
     for name, tree in trees():
         if SH.has_process(tree):
             big.append({'kind': 'stop', 'name': name, 'tree': tree, 'workload': 'abandoned-stream', 'cycles': 2, 'pending': 300, 'pad': 200_000,
@@ -81,6 +86,19 @@ def gen_cases(tier, seed):
             # the same under AsyncServer (its shutdown path is separate code), with enough pending input to fill the pipes
             big.append({'kind': 'stop', 'name': name, 'tree': tree, 'workload': 'abandoned-stream', 'cycles': 2, 'pending': 200, 'pad': 20_000,
                         'mode': 'async', 'seed': rng.randrange(1 << 30)})
+    # one member of a switch is slower than its sibling (an ensemble): it is still delivering when the sibling has stopped
+    slow = []
+    for name, tree in trees():
+        if name == 'seq-sw-ensP':
+            for mode in ('sync', 'async'):
+                slow.append({'kind': 'stop', 'name': name, 'tree': tree, 'workload': 'abandoned-stream', 'cycles': 2, 'pending': 300, 'pad': 200_000,
+                             'mode': mode, 'slow_tag': 'C', 'seed': rng.randrange(1 << 30)})
+    # ... the sibling is an ensemble of threads that receives nothing and stops at once; every request goes to the slow process member
+    sw_ens_t = ['Seq', [['Sw', [['Ens', False, [['T', 'A', 1, 0, {}], ['T', 'B', 1, 0, {}]]], ['P', 'C', 1, 0, {}]]], ['P', 'D', 1, 0, {}]]]
+    for mode in ('sync', 'async'):
+        slow.append({'kind': 'stop', 'name': 'seq-sw-ensT', 'tree': sw_ens_t, 'workload': 'abandoned-stream', 'cycles': 2, 'pending': 60, 'pad': 200_000,
+                     'mode': mode, 'slow_tag': 'C', 'slow_s': 0.05, 'only_member': 1, 'seed': rng.randrange(1 << 30)})
+    big += slow
     if tier == 'quick':
         thr_s = [c for c in start if not SH.has_process(c['tree'])]
         prc_s = [c for c in start if SH.has_process(c['tree'])]
@@ -90,6 +108,7 @@ def gen_cases(tier, seed):
             rng.shuffle(lst)
         must = {'seqPT', 'seqPP', 'P3b', 'ensTP', 'seq-ensP'}  # multi-worker process stage upstream of another reader, process ensemble members
         bigq = [c for c in big if c['name'] in must and c['mode'] == 'sync'] + [c for c in big if c['mode'] == 'async' and c['name'] in ('P2', 'seqPT', 'seqPP', 'seq-ensP')]
+        bigq = [c for c in bigq if c not in slow] + slow
         cases = thr_s + prc_s[:14] + [c for c in prc_s[14:] if c.get('init_kind')] + thr_e + prc_e[:12] + [c for c in prc_e[12:] if c['workload'] == 'worker-dies'] + bigq
     else:
         cases = start + stop + big
@@ -329,6 +348,15 @@ def run_stop(case):
                 res.append((t, y))
         elif wl == 'worker-dies':
             res = small_workload(server, tree, n=4, client=cycle)
+            if case.get('batched_crowd'):
+                tag = lv[case['die_leaf']][1]
+                toks = [('tok', cycle, 100 + s, ((tag, 'die', None),) if s == 7 else ((tag, 'sleep', 0.02),)) for s in range(case['batched_crowd'])]
+                try:
+                    for _ in server.stream(iter(toks), return_x=True, return_exceptions=True, timeout=2):
+                        pass
+                except BaseException as e:  # noqa: BLE001
+                    box['fatal_outcome'] = repr(e)[:100]
+                return res
             t = ('tok', cycle, 99, ((lv[case['die_leaf']][1], 'fail', 'SystemExit'),))
             try:
                 server.call(t, timeout=3)
@@ -345,7 +373,8 @@ def run_stop(case):
                     if type(e).__name__ != 'ServerBacklogFull':
                         viol.append({'mech': 'lifecycle/wrong-answer/timeouts', 'msg': f'short-deadline call raised {e!r}'})
         elif wl == 'abandoned-stream':
-            toks = [('tok', cycle, s, (('_', 'pad', pad),)) for s in range(case['pending'])]
+            toks = [('tok', cycle, s, (('_', 'pad', pad),) + (((case['slow_tag'], 'sleep', case.get('slow_s', 0.01)),) if case.get('slow_tag') else ()))
+                    for s in (range(case['pending']) if case.get('only_member') is None else range(case['only_member'], 2 * case['pending'], 2))]
             it = server.stream(iter(toks), return_x=True, return_exceptions=True, timeout=60)
             k = 0
             for x, y in it:
@@ -396,7 +425,8 @@ def run_stop(case):
             except BaseException as e:  # noqa: BLE001
                 box['fatal_outcome'] = repr(e)[:100]
         elif wl == 'abandoned-stream':
-            toks = [('tok', cycle, s, (('_', 'pad', pad),)) for s in range(case['pending'])]
+            toks = [('tok', cycle, s, (('_', 'pad', pad),) + (((case['slow_tag'], 'sleep', case.get('slow_s', 0.01)),) if case.get('slow_tag') else ()))
+                    for s in (range(case['pending']) if case.get('only_member') is None else range(case['only_member'], 2 * case['pending'], 2))]
 
             async def src():
                 for t in toks:
